@@ -136,7 +136,12 @@ func observeParse(text string, argOnly bool) string {
 func runYParse(c Case) string {
 	b, _ := hex.DecodeString(cstr(c, "hex"))
 	_, argOnly := c["pieces"]
-	return observeParse(string(b), argOnly)
+	out := observeParse(string(b), argOnly)
+	if cbool(c, "verdict") && strings.HasPrefix(out, "ok ") {
+		// statement-grammar streams (C09) compare the verdict and the error location only
+		return "ok"
+	}
+	return out
 }
 
 // ---- generators ----
